@@ -227,3 +227,22 @@ def twin_precedence_object_value_used(ob: int, fam: int) -> bool:
     r = not (_pick(SIZES, ob) is not None and st.magnetization.arrow.width == _pick(SIZES, ob) and _pick(SIZES, ob) != _pick(SIZES, fam))
     _CUB.style.magnetization.arrow.width = None
     return r
+
+
+_TRI = magpy.misc.Triangle(vertices=[(0, 0, 0), (1, 0, 0), (0, 1, 0)], polarization=(0, 0, 1))
+
+
+def h_precedence_two_families(ob: int, spec: int, gen: int) -> bool:
+    """
+    pre: 0 <= ob <= 2 and 0 <= spec <= 2 and 1 <= gen <= 2
+    post: _
+    """
+    # a Triangle belongs to the generic 'magnet' family and to its own 'triangle' family: object style > triangle default > magnet default
+    _DS.reset()
+    _DS.display.style.magnet.magnetization.arrow.width = _pick(SIZES, gen)
+    _DS.display.style.triangle.magnetization.arrow.width = _pick(SIZES, spec)
+    _TRI.style.magnetization.arrow.width = _pick(SIZES, ob)
+    st = get_style(_TRI, _DS)
+    ok = st.magnetization.arrow.width == _first(_pick(SIZES, ob), _pick(SIZES, spec), _pick(SIZES, gen))
+    _TRI.style.magnetization.arrow.width = None
+    return ok
